@@ -407,7 +407,8 @@ class DbLeg(object):
                 s = draw(st.integers(1, 60))
                 specs.append({"seqid": draw(st.sampled_from(["chr1", "chr1", "chr2"])), "ft": draw(st.sampled_from(["exon", "exon", "CDS"])),
                               "strand": draw(st.sampled_from(["+", "+", "-"])), "start": s, "end": s + draw(st.integers(0, 15))})
-            return {"specs": specs, "exclude": draw(st.booleans()), "parent_strand": draw(st.sampled_from(["+", "-"]))}
+            return {"specs": specs, "exclude": draw(st.booleans()), "parent_strand": draw(st.sampled_from(["+", "-"])),
+                    "empty_groups": draw(st.sampled_from([False, False, True]))}
 
         return case()
 
@@ -450,7 +451,10 @@ class DbLeg(object):
         # rows with equal sort keys may come in either order: only assert when the run structure does not depend on it
         keys = [(s["seqid"], s["ft"], s["strand"], s["start"]) for s in rows]
         ambiguous = len(set(keys)) != len(keys)
-        res = db.merge_all(exclude_components=case["exclude"])
+        mkw = {}
+        if case.get("empty_groups"):
+            mkw["featuretypes_groups"] = ()  # documented: "can't be empty" -> treated as (None,), i.e. all features
+        res = db.merge_all(exclude_components=case["exclude"], **mkw)
         after = dbsnap.snapshot(db)
         multi = [(members, acc) for members, acc in ref if len(members) >= 2]
         if len(res) != len(multi):
@@ -489,6 +493,13 @@ class DbLeg(object):
             for r in after["features"]:
                 if r["id"] in old and r["cols"] != old[r["id"]]["cols"]:
                     return Failure("merge_all changed the columns of %r" % r["id"], sig={"kind": "merge_all-member-cols"})
+        # a later merge() on the same handle hands out ids that are not stored yet
+        stored_ids = set(r["id"] for r in after["features"])
+        later = [o for o in db.merge(make_features(specs)) if getattr(o, "children", None)]
+        clash = [o.id for o in later if o.id in stored_ids]
+        if clash:
+            return Failure("merge() after merge_all() on the same handle hands out ids that are already stored: %r" % clash,
+                           sig={"kind": "ids-after-merge_all"})
         return None
 
 
